@@ -225,9 +225,63 @@ pub fn scheme<S: Sch + ProofMut>(rec: &mut Rec) {
     }
 }
 
+/// IPA: a proof made by the library's own prover under a smaller trimmed key (fewer halving rounds),
+/// presented under the larger key: the individual check refuses it, the batch must too.
+pub fn ipa_cross_key(rec: &mut Rec) {
+    use ark_poly::DenseUVPolynomial;
+    let big = KeyCfg::uni(7, 7, 1, None);
+    let pp = match SIpa::setup(&big, rec.seed) {
+        Ok(p) => p,
+        Err(_) => return,
+    };
+    for small_s in [1usize, 3] {
+        for hid in [None, Some(1usize)] {
+            for two_points in [false, true] {
+                let id = format!("IPA/C05/cross-key/small={}/h={:?}/two-points={}", small_s, hid, two_points);
+                if !rec.take(&id) {
+                    continue;
+                }
+                rec.dim("scheme", "IPA");
+                let (ck_big, vk_big) = match SIpa::trim(&pp, &big) {
+                    Ok(k) => k,
+                    Err(_) => continue,
+                };
+                let (ck_small, _) = match SIpa::trim(&pp, &KeyCfg::uni(7, small_s, 1, None)) {
+                    Ok(k) => k,
+                    Err(_) => continue,
+                };
+                let keys_big = Keys::<SIpa> { cfg: big.clone(), pp: pp.clone(), ck: ck_big, vk: vk_big };
+                let keys_small = Keys::<SIpa> { cfg: KeyCfg::uni(7, small_s, 1, None), pp: pp.clone(), ck: ck_small, vk: keys_big.vk.clone() };
+                let r = rho_stream::<FrJ>(rec.seed, 1, 8);
+                let p = lp::<SIpa>("p0", UP::<FrJ>::from_coefficients_slice(&r[..=small_s.min(3)]), None, hid);
+                // commitment (and state) from the small key: the same generators prefix as the big key
+                let c = match commit_set::<SIpa>(&keys_small, vec![p], rec.seed, 0) {
+                    Ok(c) => c,
+                    Err(_) => continue,
+                };
+                let labels = vec![("a".to_string(), rho::<FrJ>(rec.seed, 1)), ("c".to_string(), rho::<FrJ>(rec.seed, 2))];
+                let mut qs = QuerySet::<FrJ>::new();
+                qs.insert(("p0".into(), (labels[0].0.clone(), labels[0].1)));
+                if two_points {
+                    qs.insert(("p0".into(), (labels[1].0.clone(), labels[1].1)));
+                }
+                // proofs by the library's prover under the SMALL key
+                let b = match open_batch::<SIpa>(&keys_small, &c, &[0], &qs, 0, rec.seed, 0) {
+                    Ok(b) => b,
+                    Err(_) => continue,
+                };
+                let list: Vec<Pf<SIpa>> = b.proof.clone().into();
+                let comms: Vec<&LCm<SIpa>> = c.comms.iter().collect();
+                compare::<SIpa>(rec, &id, "short-rounds-from-smaller-key", &keys_big, &comms, &qs, &b.evals, &list, &format!("{}-round proofs under an 8-generator key", list[0].l_vec.len()), &[0, 1, 2]);
+            }
+        }
+    }
+}
+
 pub fn run(rec: &mut Rec) {
     crate::for_each_scheme!(S, {
         scheme::<S>(rec);
     });
+    ipa_cross_key(rec);
     crate::special::c05_special(rec);
 }
